@@ -21,7 +21,8 @@ const (
 	opRemove = 1 // Dequeue / Pop
 	opPeek   = 2 // Peek
 	opLen    = 3 // Len / len
-	nOps     = 4
+	opGC     = 4 // not a library call: runtime.GC() plus a burst of small allocations (see gcNow)
+	nOps     = 5
 )
 
 type Op struct {
@@ -48,9 +49,10 @@ var legacyKinds = []string{"queue", "queue-str", "stack-nil", "stack-empty", "st
 
 var containers = []string{"queue", "stack-nil", "stack-empty", "stack-cap", "stack-cap100"}
 
-const rule = "one fresh container per case (zero-value Queue[E]; nil, empty, spare-capacity Stack[E]) for E among 25 element types of sizes 0,1,2,3,7,8,12,16,24,32,40,50,100,320 bytes " +
+const rule = "one fresh container per case (zero-value Queue[E]; nil, empty, spare-capacity Stack[E]) for E among 31 element types of sizes 0,1,2,3,7,8,12,16,24,32,40,50,100,128,129,320,1500 bytes " +
 	"(ints incl. values next to MinInt/MaxInt, string, float64 incl. -0.0/NaN/Inf compared by bits, [3]byte, [3]int32, [5]int64, 3-word struct with own methods, slices (nil, empty, shared backing; compared by pointer+len+cap), " +
-	"non-comparable struct, map, func, pointer, interface holding comparable and non-comparable values, struct{}, [0]int, [40]int64); " +
+	"non-comparable struct, map, func, pointer, interface holding comparable and non-comparable values, struct{}, [0]int, [0]func(), [16]int64, [129]byte, [40]int64, [1500]byte, and *int / string values that only the container references " +
+	"(the model keeps an equal value in a separate allocation)); " +
 	"ops Insert v/Remove/Peek/Len executed against a slice model (FIFO for Queue, LIFO for Stack); after EVERY call (except in quiet cases, where only the listed calls are made): returned value and ok flag, " +
 	"Len == model size, Peek == (what the next removal will return, true) and removes nothing, on empty Remove/Peek == (zero,false) and the container " +
 	"stays empty and usable"
@@ -86,6 +88,7 @@ type stats struct {
 	maxLen                 int
 	evals                  int
 	drainAtMult64          bool // drained to empty when the number of values ever inserted was a positive multiple of 64
+	gcs                    int  // garbage collections in the middle of the history
 	slidHigh               int  // removals performed while at least 32 values stayed inside and values had been inserted after the previous removal
 }
 
@@ -95,6 +98,7 @@ type engine interface {
 	remove(i int) string
 	peek(i int) string
 	length(i int) string
+	gc(i int) string
 	check(i int, what string, withArg bool) string
 	size() int
 	st() *stats
@@ -106,6 +110,7 @@ type eng[E any] struct {
 	fifo          bool
 	quiet         bool
 	conv          func(int) E
+	modelConv     func(int) E // nil: the model keeps the very value that was inserted
 	eq            func(a, b E) bool
 	model         []E
 	lastWasInsert bool
@@ -183,9 +188,14 @@ func (e *eng[E]) check(i int, what string, withArg bool) string {
 
 func (e *eng[E]) insert(i, v int) string {
 	insName, _ := e.names()
-	x := e.conv(v)
-	e.b.ins(x)
-	e.model = append(e.model, x)
+	if e.modelConv != nil {
+		e.b.ins(e.conv(v)) // the argument is referenced by nothing but the container afterwards
+		e.model = append(e.model, e.modelConv(v))
+	} else {
+		x := e.conv(v)
+		e.b.ins(x)
+		e.model = append(e.model, x)
+	}
 	e.calls++
 	e.inserts++
 	e.evals++
@@ -252,6 +262,13 @@ func (e *eng[E]) peek(i int) string {
 	return e.check(i, "Peek", false)
 }
 
+// gc runs a garbage collection in the middle of the history, then the usual observers.
+func (e *eng[E]) gc(i int) string {
+	gcNow()
+	e.gcs++
+	return e.check(i, "runtime.GC", false)
+}
+
 func (e *eng[E]) length(i int) string {
 	e.calls++
 	e.evals++
@@ -291,6 +308,15 @@ func newEngine(kind, tag string, quiet bool) engine {
 	return et.mk(tag, container, quiet)
 }
 
+// kindLabel is the kind with the numbers of a preloaded stack removed (one histogram class for all of them).
+func kindLabel(kind string) string {
+	container, elem, ok := splitKind(kind)
+	if ok && strings.HasPrefix(container, "stack-pre") {
+		return "stack-pre*/" + elem
+	}
+	return kind
+}
+
 func isQueue(kind string) bool { return strings.HasPrefix(kind, "queue") }
 
 func Run(c Case) pbt.Outcome {
@@ -312,6 +338,8 @@ func Run(c Case) pbt.Outcome {
 			m = e.peek(i)
 		case opLen:
 			m = e.length(i)
+		case opGC:
+			m = e.gc(i)
 		}
 		if m != "" {
 			return pbt.Fail("%s", m)
@@ -320,9 +348,12 @@ func Run(c Case) pbt.Outcome {
 	s := e.st()
 	out := pbt.Outcome{Evals: s.evals}
 	out.NonTrivial = len(c.Ops) >= 10 && s.drainsRefilled >= 2
-	out.Labels = append(out.Labels, "kind="+c.Kind)
+	out.Labels = append(out.Labels, "kind="+kindLabel(c.Kind))
 	if c.Quiet {
 		out.Labels = append(out.Labels, "quiet")
+	}
+	if s.gcs > 0 {
+		out.Labels = append(out.Labels, "gc-in-the-middle")
 	}
 	switch {
 	case s.drainsRefilled >= 2:
@@ -371,7 +402,8 @@ func Run(c Case) pbt.Outcome {
 }
 
 // genOps builds an op list (<= maxOps) out of bursts: fill, drain-to-empty (plus
-// extra removals on the empty container), partial drain, mixed, observers. The
+// extra removals on the empty container), partial drain, mixed, observers, and (one case in forty) garbage
+// collections between the calls. The
 // generator tracks the size so that "drain" bursts really reach empty. One case in
 // five uses long fills (up to 70 per burst) so that sizes beyond 32 and 64 occur.
 func genOps(t *rapid.T) []Op {
@@ -397,9 +429,13 @@ func genOps(t *rapid.T) []Op {
 			size--
 		}
 	}
+	bursts := []int{0, 0, 0, 1, 1, 1, 2, 3, 3, 4}
+	if rapid.IntRange(0, 39).Draw(t, "gc") == 0 {
+		bursts = []int{0, 0, 0, 1, 1, 1, 2, 3, 3, 4, 5}
+	}
 	nb := rapid.IntRange(2, 16).Draw(t, "bursts")
 	for b := 0; b < nb && len(ops) < maxOps; b++ {
-		switch rapid.SampledFrom([]int{0, 0, 0, 1, 1, 1, 2, 3, 3, 4}).Draw(t, "burst") {
+		switch rapid.SampledFrom(bursts).Draw(t, "burst") {
 		case 0: // fill
 			for k := rapid.IntRange(1, maxFill).Draw(t, "fill"); k > 0 && len(ops) < maxOps; k-- {
 				ins()
@@ -432,6 +468,8 @@ func genOps(t *rapid.T) []Op {
 			}
 		case 4: // observers
 			ops = append(ops, Op{K: rapid.SampledFrom([]int{opPeek, opLen}).Draw(t, "obs")})
+		case 5: // garbage collection in the middle of the history
+			ops = append(ops, Op{K: opGC})
 		}
 	}
 	return ops
@@ -452,7 +490,7 @@ var queueKinds = kindsOf("queue")
 var stackKinds = kindsOf("stack-nil", "stack-empty", "stack-cap", "stack-cap100")
 
 const ruleBursts = "op list <= 80 (one case in five: <= 260 with fills up to 70, so that sizes beyond 32 and 64 occur) built from bursts (fill, drain to empty + 0..2 calls on the empty container, " +
-	"partial drain, mixed, observers), values are unique ids with 5% zero values, one case in eight is quiet; "
+	"partial drain, mixed, observers; one case in forty also has runtime.GC() + small allocations between the calls), values are unique ids with 5% zero values, one case in eight is quiet; "
 
 var specQueue = pbt.Register(&pbt.Spec[Case]{
 	Property: "C16", Name: "C16.queue", Rule: "rapid: Queue of every element type, " + ruleBursts + rule + ruleNT,
@@ -526,12 +564,12 @@ var specEnum = pbt.Register(&pbt.Spec[Case]{
 			enumSeqs(legacyKinds, []bool{true}, maxLen-1, shard, shards, yield)
 		}
 	},
-	Run: Run, Exhaustive: true,
+	Run: Run, Exhaustive: true, Replicas: 4, ReplicaEvery: 16,
 })
 
 // The same small scope for every container x element type (shorter sequences).
 var specTypes = pbt.Register(&pbt.Spec[Case]{
-	Property: "C16", Name: "C16.types", Rule: "exhaustive: every sequence over {Insert, Remove, Peek} of length 0..7 (thorough: 0..9) for each container (Queue, nil/empty/capacity-4/capacity-100 Stack) x each of the 25 element types, " +
+	Property: "C16", Name: "C16.types", Rule: "exhaustive: every sequence over {Insert, Remove, Peek} of length 0..7 (thorough: 0..9) for each container (Queue, nil/empty/capacity-4/capacity-100 Stack) x each of the 31 element types, " +
 		"each both observed after every call and quiet; inserted values are 1,0,3,4,... (the 2nd insertion is the zero value); " + rule + "; non-trivial = at least 5 ops, at least 2 insertions and 2 removals",
 	Enum: func(shard, shards int, tier string, yield func(Case) bool) {
 		maxLen := 7
@@ -554,7 +592,7 @@ var specTypes = pbt.Register(&pbt.Spec[Case]{
 		out.NonTrivial = out.Violation == "" && len(c.Ops) >= 5 && ins >= 2 && rem >= 2
 		return out
 	},
-	Exhaustive: true,
+	Exhaustive: true, Replicas: 4, ReplicaEvery: 16,
 })
 
 func TestC16Enum(t *testing.T)  { pbt.Check(t, specEnum) }
